@@ -145,9 +145,11 @@ def euf_subsample(mod, n, increasing):
     return str(r), len(cent), len(pairs), dt, bad
 
 
-def concrete_disagreement(n, increasing):
-    """Replay on the real code: compiled subsample vs descent through the real _div4 with the real mid, on real tiles."""
-    from toasty._libtoasty import subsample as csub
+def concrete_disagreement(n, increasing, csub=None):
+    """Replay on the real code: subsample (compiled, or the given implementation) vs descent through the real _div4
+    with the real mid, on real tiles."""
+    if csub is None:
+        from toasty._libtoasty import subsample as csub
     worst = (0.0, None)
     for cs in (tt.ToastCoordinateSystem.ASTRONOMICAL, tt.ToastCoordinateSystem.PLANETARY):
         for t1 in tt._create_level1_tiles(cs):
@@ -202,7 +204,15 @@ def check(run):
                                   "pixel grid of a tile differs from the centres of its descendants (first differing cell %r; real code: max |xyz difference| %.3g at %r)" % (bad, d, where),
                                   text, "E4:euf", queries=1, solver_s=dt)
                 else:
-                    run.error(nm, "EUF counterexample at cell %r does not show on the compiled extension (stale .so? max diff %.3g)" % (bad, d))
+                    d2, where2 = concrete_disagreement(max(n, 2) if n > 1 else 2, inc, csub=decy.load()[0].subsample)
+                    if d2 > 1e-9:
+                        text = ("# subsample of the CURRENT toasty/_libtoasty.pyx (decythonised) vs descent through the real _div4\nimport sys\nsys.path.insert(0, %r)\nimport props.C05 as P\nfrom vlib import decy\n"
+                                "d, where = P.concrete_disagreement(%d, %r, csub=decy.load()[0].subsample)\nprint(d, where)\nsys.exit(1 if d > 1e-9 else 0)\n") % (str(__import__("vlib.core").core.VERIF), max(n, 2), inc)
+                        run.violation(nm, "subsample-source-vs-div4:%s" % ("increasing" if inc else "decreasing"),
+                                      "the _subsample in toasty/_libtoasty.pyx places pixel centres differently from the tile subdivision (first differing cell %r; decythonised source: max |xyz difference| %.3g at %r); "
+                                      "the compiled extension in this sandbox is stale (no Cython to rebuild it) and still agrees" % (bad, d2, where2), text, "E4:euf", queries=1, solver_s=dt)
+                    else:
+                        run.error(nm, "EUF counterexample at cell %r shows neither on the compiled extension nor on the decythonised source (max diff %.3g)" % (bad, d2))
             else:
                 run.ob(nm, "inconclusive", "E4:euf", "solver %s after %.0fs" % (r, dt), queries=1, solver_s=dt)
     # argument order at the call site: real toast_tile_get_coords with a recording stand-in for the compiled subsample
